@@ -630,13 +630,30 @@ def rule_start_pos(ctx, res, src):
                      'no token is created with a position in '
                      '_process_token')
         return
+    def pairs(st):
+        """(target, value) of an assignment, a tuple assignment with as
+        many values as targets taken apart"""
+        out = []
+        for t in st.targets:
+            if isinstance(t, (ast.Tuple, ast.List)) and isinstance(
+                    st.value, (ast.Tuple, ast.List)) and \
+                    len(t.elts) == len(st.value.elts):
+                out.extend(zip(t.elts, st.value.elts))
+            else:
+                out.append((t, st.value))
+        return out
+
+    class _One:
+        """one (target, value) pair of an assignment, seen as a statement"""
+        def __init__(self, st, value):
+            self.st, self.value, self.lineno = st, value, st.lineno
     stores = {}
     for n in walk_own(f.node):
         if isinstance(n, ast.Assign):
-            for t in n.targets:
+            for (t, v) in pairs(n):
                 if isinstance(t, ast.Attribute) and isinstance(
                         t.value, ast.Name) and t.value.id == 'self':
-                    stores.setdefault(t.attr, []).append(n)
+                    stores.setdefault(t.attr, []).append(_One(n, v))
 
     def block_of(st):
         par = getattr(st, '_parent', None)
@@ -673,14 +690,14 @@ def rule_start_pos(ctx, res, src):
             continue
         problems = []
         for st in opens:
-            blk = block_of(st) or []
+            blk = block_of(st.st) or []
             vals = {}
             for x in blk:
                 if isinstance(x, ast.Assign):
-                    for t in x.targets:
+                    for (t, v) in pairs(x):
                         if isinstance(t, ast.Attribute) and \
                                 t.attr in (la, ca):
-                            vals[t.attr] = u(x.value)
+                            vals[t.attr] = u(v)
             if vals.get(la) != 'self._cur_lineno':
                 problems.append('line {}: the construct is opened without '
                                 'recording its start line ({} = {})'.format(
@@ -689,10 +706,10 @@ def rule_start_pos(ctx, res, src):
                 problems.append('line {}: the construct is opened without '
                                 'recording its start column ({} = {})'.format(
                                     st.lineno, ca, vals.get(ca)))
-        open_blocks = [id(block_of(st)) for st in opens]
+        open_blocks = [id(block_of(st.st)) for st in opens]
         for a in (la, ca):
             for st in stores.get(a, []):
-                if not is_none(st.value) and id(block_of(st)) not in \
+                if not is_none(st.value) and id(block_of(st.st)) not in \
                         open_blocks:
                     problems.append('line {}: {} is written outside the '
                                     'place that opens the construct'.format(
